@@ -252,11 +252,13 @@ def behOf (stream : Bool) (layer : Nat) (c : Char) : Option InterceptClient.Inte
   if c == 'p' then some (InterceptClient.logPass stream layer)
   else if c == 's' then some (InterceptClient.logShort stream layer)
   else if c == 'a' then some (InterceptClient.logAlter stream layer)
+  else if c == 'd' then some (InterceptClient.logDrop stream layer)
   else none
 
 def driveC17 (args : List String) : String :=
   match args with
-  | [kind, base, layers] =>
+  | kind :: base :: layers :: rest =>
+    let copts := match rest with | [c] => ((c.drop 6).toString.toNat?.getD 0) | _ => 0
     let stream := kind == "stream"
     let baseKind := (base.drop 5).toString
     let b : InterceptClient.Chan := .base (baseKind == "grpc") 0
@@ -268,7 +270,7 @@ def driveC17 (args : List String) : String :=
       let s := behOf true i (cs.getD 1 '-')
       (InterceptClient.intercept ch u s, i + 1)) (b, 0)
     let mname := if stream then "/grpchantesting.TestService/BidiStream" else "/grpchantesting.TestService/Unary"
-    let (evs, res) := if stream then InterceptClient.newStream ch ⟨0, 0⟩ else InterceptClient.invoke ch ⟨0, 0⟩
+    let (evs, res) := if stream then InterceptClient.newStream ch ⟨0, copts⟩ else InterceptClient.invoke ch ⟨0, copts⟩
     let showEv : InterceptClient.Ev → Option String
       | .int st l cc c =>
         let ccs := match cc with | some _ => "root" | none => "nil"
